@@ -3,6 +3,7 @@ let () =
   match Array.to_list Sys.argv with
   | _ :: "token" :: _ -> M_token.run ()
   | _ :: "cping" :: _ -> M_cping.run ()
+  | _ :: "async" :: _ -> M_async.run ()
   | _ :: "cexec" :: _ -> M_cexec.run ()
   | _ :: "crun" :: _ -> M_crun.run ()
   | _ :: "cchan" :: _ -> M_cchan.run ()
